@@ -57,7 +57,8 @@ CHECKS['C07'] = dict(
     text='All ordered lists of up to 2 (quick) / 3 (thorough) inclusions and 1 / 2 exclusions from dot-, slash-, '
          'bracket- and group-sensitive pools, in ten presentations (exclude=, inline !/-, orders, duplicates, SPLIT '
          'joins, NEGATEALL, brace templates x SPLIT x NEGATE), fnmatch and glob mode; equality decided on all names; '
-         'translate() list lengths compared with the number of distinct pieces.',
+         'translate() list lengths compared with the number of distinct pieces and translate()\'s regexes held to the same '
+         'decomposition language; bytes twins on probe names; every witness and witness+newline through the public match().',
     note='Single-piece semantics come from the library (decided by C01/C02); decomposition is known by construction; '
          'empty brace expansions are dropped as Bash does.')
 CHECKS['C08'] = dict(
